@@ -45,6 +45,8 @@ class Scenario:
     nlsat: bool = True  # try the non-incremental nlsat tactic first (pure real arithmetic); switch off for integer-heavy scenarios
     round_mode: str = "exact"  # "uf": roundings are uninterpreted functions with bracketing axioms (over-approximation)
     relax_inputs: bool = False  # with relax_int: integer inputs lose integrality too (witness / replay values are floored)
+    float_model: bool = False  # the code under test computes in IEEE floats, modelled as reals (DESIGN 6.1): a path witness that sits
+    #                            on a comparison's knife edge may take the other branch concretely -- treated like relax_int by the driver
     relax_int: bool = False  # int()/floor//`//` as bracketed reals (over-approximation): proofs are sound, refutations and path
     #                          witnesses are candidates only (a non-reproducing one is counted inconclusive, not an encoding error)
 
